@@ -994,6 +994,11 @@ def _flatnonzero(a):
     return np.flatnonzero(np.asarray(a))
 
 
+@impl(np.ix_)
+def _ix(*args):
+    return np.ix_(*[np.asarray(a) if isinstance(a, SymArray) else a for a in args])
+
+
 @impl(np.compress)
 def _compress(cond, a, axis=None):
     c = np.asarray(cond, dtype=bool)
